@@ -235,6 +235,18 @@ func c11Sequential(r *kit.Rand, a, b *PeerConnection, la, lb *c11Log, target int
 
 				continue
 			}
+			if r.Chance(0.2) {
+				// the exchange is cancelled on both sides; descriptions generated afterwards must still carry greater versions
+				*ops = append(*ops, "rollback(A local, B remote)")
+				if e := step("A.SetLocalDescription(rollback)", a.SetLocalDescription(SessionDescription{Type: SDPTypeRollback})); e != "" {
+					return e
+				}
+				if e := step("B.SetRemoteDescription(rollback)", b.SetRemoteDescription(SessionDescription{Type: SDPTypeRollback})); e != "" {
+					return e
+				}
+
+				continue
+			}
 			*ops = append(*ops, "B.answer>A")
 			ans, ok := lb.gen(b, "answer", "seq")
 			if !ok {
@@ -247,6 +259,17 @@ func c11Sequential(r *kit.Rand, a, b *PeerConnection, la, lb *c11Log, target int
 				return e
 			}
 		case SignalingStateHaveRemoteOffer:
+			if r.Chance(0.15) {
+				*ops = append(*ops, "rollback(A remote, B local)")
+				if e := step("A.SetRemoteDescription(rollback)", a.SetRemoteDescription(SessionDescription{Type: SDPTypeRollback})); e != "" {
+					return e
+				}
+				if e := step("B.SetLocalDescription(rollback)", b.SetLocalDescription(SessionDescription{Type: SDPTypeRollback})); e != "" {
+					return e
+				}
+
+				continue
+			}
 			switch x := r.Intn(10); {
 			case x < 3:
 				*ops = append(*ops, "A.genAnswer@hro")
